@@ -23,21 +23,29 @@ typedef struct { uint64_t fe; } GElement;
  * of the source pointer, and asserts that the element lies inside the declared length (this is the out-of-bounds check). */
 uint64_t __CPROVER_uninterpreted_input(uint64_t);
 #define INPUT(i) __CPROVER_uninterpreted_input(i)
-extern const GElement *g_input; extern uint64_t g_size;
-#define CP1(i) if (n / 8 > (i)) { if (from_input) { __CPROVER_assert(base + (i) < g_size, "read inside the declared input length"); dd[i].fe = INPUT(base + (i)); } else dd[i] = ss[i]; }
+extern const GElement *g_input; extern uint64_t g_size, g_rows;
+#define CP1(i) if (n / 8 > (i)) { if (from_input) { __CPROVER_assert(base + (i) < g_rows * g_size, "read inside the declared input length"); dd[i].fe = INPUT(base + (i)); } else dd[i] = ss[i]; }
 #define ZE1(i) if (n / 8 > (i)) dd[i].fe = 0;
 #define REP12(M) M(0) M(1) M(2) M(3) M(4) M(5) M(6) M(7) M(8) M(9) M(10) M(11)
+#define REP24(M) REP12(M) M(12) M(13) M(14) M(15) M(16) M(17) M(18) M(19) M(20) M(21) M(22) M(23)
+#ifdef VF_AVX512
+#define REPCP(M) REP12(M) M(12) M(13) M(14) M(15)
+#define MAXCP 128
+#else
+#define REPCP(M) REP12(M)
+#define MAXCP 96
+#endif
 /* typed element pointers (every argument in these functions is a GElement pointer): no byte-level reinterpretation */
 static void vf_memcpy(GElement *dd, const GElement *ss, size_t n)
-{ __CPROVER_assert((n & 7) == 0 && n <= 96, "vf_memcpy: whole elements, at most 12");
+{ __CPROVER_assert((n & 7) == 0 && n <= MAXCP, "vf_memcpy: whole elements, at most 12 (16 in the AVX-512 unit)");
   _Bool from_input = n > 0 && __CPROVER_same_object(ss, g_input); uint64_t base = 0;
   if (from_input) { __CPROVER_assert((__CPROVER_POINTER_OFFSET(ss) & 7) == 0, "element-aligned source"); base = (uint64_t)__CPROVER_POINTER_OFFSET(ss) / 8; }
-  REP12(CP1) }
+  REPCP(CP1) }
 static void vf_memset(GElement *dd, int c, size_t n)
-{ __CPROVER_assert((n & 7) == 0 && n <= 96 && c == 0, "vf_memset: whole elements, zero fill, at most 12"); REP12(ZE1) }
+{ __CPROVER_assert((n & 7) == 0 && n <= MAXCP && c == 0, "vf_memset: whole elements, zero fill, at most 12 (16)"); REPCP(ZE1) }
 
 /* ---- ghost monitor of the permutation calls */
-const GElement *g_input; uint64_t g_size; uint64_t g_calls; _Bool g_bad; uint64_t g_prev[4];
+const GElement *g_input; uint64_t g_size, g_rows = 1; uint64_t g_calls; _Bool g_bad; uint64_t g_prev[8];
 uint64_t vf_nondet_u64(void) { uint64_t x; return x; }
 static void perm_monitor(GElement *out, const GElement *in)
 {
@@ -65,17 +73,58 @@ void PoseidonGoldilocks_hash_full_result(GElement *out, const GElement *in) { pe
   __CPROVER_loop_invariant(g_calls == 0 || (state[0].fe == g_prev[0] && state[1].fe == g_prev[1] && state[2].fe == g_prev[2] && state[3].fe == g_prev[3])) \
   __CPROVER_decreases(remaining)
 
+/* ---- AVX-512 two-at-a-time variant: rows A = input[0..size), B = input[size..2size); interleaved state layout
+ * [A0-3 | B0-3 | A4-7 | B4-7 | capA | capB]; each row must follow the same sponge schedule as the scalar function */
+#define CHK2(k) { uint64_t wa = 0, wb = 0, wa2 = 0, wb2 = 0; \
+    if ((uint64_t)(k) < n) { wa = INPUT(off + (k)); wb = INPUT(g_size + off + (k)); } if ((uint64_t)(k) + 4 < n) { wa2 = INPUT(off + 4 + (k)); wb2 = INPUT(g_size + off + 4 + (k)); } \
+    if (in[k].fe != wa || in[4 + (k)].fe != wb || in[8 + (k)].fe != wa2 || in[12 + (k)].fe != wb2) g_bad = 1; }
+#define CHKC2(k) { uint64_t want = g_calls == 0 ? 0 : g_prev[k]; if (in[16 + (k)].fe != want) g_bad = 1; }
+#define OUT2(k) { uint64_t v = vf_nondet_u64(); out[k].fe = v; if ((k) < 8) g_prev[(k) < 8 ? (k) : 0] = v; }
+void PoseidonGoldilocks_hash_full_result_avx512(GElement *out, const GElement *in)
+{
+  uint64_t off = g_calls * 8;
+  if (g_calls >= (1UL << 40) || off >= g_size) g_bad = 1;
+  else { uint64_t n = g_size - off < RATE ? g_size - off : RATE; CHK2(0) CHK2(1) CHK2(2) CHK2(3) CHKC2(0) CHKC2(1) CHKC2(2) CHKC2(3) CHKC2(4) CHKC2(5) CHKC2(6) CHKC2(7) }
+  REP24(OUT2)
+  g_calls++;
+}
+#define LOOP_CONTRACT_SPONGE512 \
+  __CPROVER_assigns(remaining, __CPROVER_object_whole(state), g_calls, g_bad, __CPROVER_object_whole(g_prev)) \
+  __CPROVER_loop_invariant(remaining <= size && !g_bad && g_calls <= (size + 7) / 8) \
+  __CPROVER_loop_invariant(size - remaining == (8 * g_calls < size ? 8 * g_calls : size)) \
+  __CPROVER_loop_invariant(g_calls == 0 || (state[0].fe == g_prev[0] && state[1].fe == g_prev[1] && state[2].fe == g_prev[2] && state[3].fe == g_prev[3] && \
+                                            state[4].fe == g_prev[4] && state[5].fe == g_prev[5] && state[6].fe == g_prev[6] && state[7].fe == g_prev[7])) \
+  __CPROVER_decreases(remaining)
+
 #include "gen_linear_hash.c"
 
+#ifdef VF_AVX512
+void hl_PoseidonGoldilocks_linear_hash_avx512(void)
+{
+  uint64_t size; __CPROVER_assume(size <= MAXSIZE); uint64_t vf_insize = size; (void)vf_insize;
+  GElement *input = (GElement *)__CPROVER_allocate(0, 0); GElement output[2 * CAPACITY];
+  g_input = input; g_size = size; g_rows = 2; g_calls = 0; g_bad = 0;
+  PoseidonGoldilocks_linear_hash_avx512(output, input, size);
+  __CPROVER_assert(!g_bad, "linear_hash_avx512.postcondition.1 (light): every permutation call absorbs the next block of BOTH rows, zero padded, with the right capacities");
+  __CPROVER_assert(size <= CAPACITY ? g_calls == 0 : g_calls == (size + 7) / 8, "linear_hash_avx512.postcondition.2 (light): number of permutations");
+  if (size > CAPACITY) { for (int k = 0; k < 8; k++) __CPROVER_assert(output[k].fe == g_prev[k], "linear_hash_avx512.postcondition.3 (light): digests = first four outputs of the last permutation, per row"); }
+  else for (int k = 0; k < CAPACITY; k++) { uint64_t wa = 0, wb = 0; if ((uint64_t)k < size) { wa = INPUT((uint64_t)k); wb = INPUT(size + (uint64_t)k); }
+    __CPROVER_assert(output[k].fe == wa && output[CAPACITY + k].fe == wb, "linear_hash_avx512.postcondition.4 (light): at most four elements per row are returned unchanged, zero padded"); }
+  VF_SENTINEL;
+}
+#endif
+
 #define HARNESS(fn) void hl_##fn(void) { \
-  uint64_t size; __CPROVER_assume(size <= MAXSIZE); \
+  uint64_t size; __CPROVER_assume(size <= MAXSIZE); uint64_t vf_insize = size; (void)vf_insize; \
   GElement *input = (GElement *)__CPROVER_allocate(0, 0); /* abstract input object: contents are INPUT(.), every direct access is a pointer failure */ GElement output[CAPACITY]; \
-  g_input = input; g_size = size; g_calls = 0; g_bad = 0; \
+  g_input = input; g_size = size; g_rows = 1; g_calls = 0; g_bad = 0; \
   fn(output, input, size); \
   __CPROVER_assert(!g_bad, #fn ".postcondition.1 (light): every permutation call absorbs the next block, zero padded, with the right capacity"); \
   __CPROVER_assert(size <= CAPACITY ? g_calls == 0 : g_calls == (size + 7) / 8, #fn ".postcondition.2 (light): number of permutations"); \
   if (size > CAPACITY) __CPROVER_assert(output[0].fe == g_prev[0] && output[1].fe == g_prev[1] && output[2].fe == g_prev[2] && output[3].fe == g_prev[3], #fn ".postcondition.3 (light): digest = first four outputs of the last permutation"); \
   else for (int k = 0; k < CAPACITY; k++) { uint64_t want = 0; if ((uint64_t)k < size) want = INPUT((uint64_t)k); __CPROVER_assert(output[k].fe == want, #fn ".postcondition.4 (light): at most four elements are returned unchanged, zero padded"); } \
   VF_SENTINEL; }
+#ifndef VF_AVX512
 HARNESS(PoseidonGoldilocks_linear_hash_seq)
 HARNESS(PoseidonGoldilocks_linear_hash)
+#endif
